@@ -604,39 +604,59 @@ def run(run):
         'the reference path (FakedWBEMConnection.<Operation>) shares the operation-method code of WBEMConnection; what it '
         'must pass to the server is therefore stated independently from the call arguments (expected_seen, fixed table)']
     thorough = run.thorough
+    state = {'sig_checked': False}
+
+    def flush(out):
+        """model side + comparisons + oracle for the collected steps, then forget them (bounded memory)"""
+        reqs, idx = [], []
+        if not state['sig_checked']:
+            reqs.append({'op': 'sig'})
+        for k, (st, dflt, host, case, scripted) in enumerate(out):
+            rq = driver_request(st, dflt, st.host)
+            if rq is not None:
+                idx.append(k)
+                reqs.append(rq)
+        answers = common.run_driver(PROP, reqs) if reqs else []
+        if not state['sig_checked']:
+            check_signature(run, answers[0])
+            answers = answers[1:]
+            state['sig_checked'] = True
+        amap = dict(zip(idx, answers))
+        for k, (st, dflt, host, case, scripted) in enumerate(out):
+            op = st.op['op']
+            canon = {'op': st.op, 'dflt': dflt, 'wire': st.wire if 'exc' in st.wire else None, 'script': case.get('script')}
+            run.case(canon, nontrivial=bool(st.exchanges))
+            run.count('op:' + op)
+            run.count('outcome:' + st.wire.get('exc', 'ok') + str(st.wire.get('code', '')))
+            run.count('stream:' + case['kind'] + (':nearmiss' if not st.exchanges else ''))
+            run.count('dflt:%s' % dflt)
+            for a, s in st.op['args'].items():
+                if a in ('ClassName', 'InstanceName', 'ObjectName', 'namespace'):
+                    run.count('shape:%s=%s' % (a, arg_shape(s) if a != 'namespace' else (s.get('v') or 'None')))
+            if k in amap and op == 'InvokeMethod':
+                run.count('K:invokemethod_request')
+                compare_method(run, st, amap[k], case)
+            elif k in amap:
+                compare_step(run, st, amap[k], case)
+            oracle_step(run, st, dflt, case, scripted)
+        del out[:]
+
     out = []
     run_probes(run, out)
-    run_histories(run, 600 if thorough else 60, 12, out)
-    run_nearmiss(run, 2000 if thorough else 200, out)
-    run_scripted(run, 8000 if thorough else 900, out)
-    run_invoke(run, 1500 if thorough else 150, out)
-    reqs, idx = [{'op': 'sig'}], []
-    for k, (st, dflt, host, case, scripted) in enumerate(out):
-        rq = driver_request(st, dflt, st.host)
-        if rq is not None:
-            idx.append(k)
-            reqs.append(rq)
-    answers = common.run_driver(PROP, reqs)
-    sig = answers[0]
-    check_signature(run, sig)
-    amap = dict(zip(idx, answers[1:]))
-    for k, (st, dflt, host, case, scripted) in enumerate(out):
-        op = st.op['op']
-        canon = {'op': st.op, 'dflt': dflt, 'wire': st.wire if 'exc' in st.wire else None, 'script': case.get('script')}
-        run.case(canon, nontrivial=bool(st.exchanges))
-        run.count('op:' + op)
-        run.count('outcome:' + st.wire.get('exc', 'ok') + str(st.wire.get('code', '')))
-        run.count('stream:' + case['kind'] + (':nearmiss' if not st.exchanges else ''))
-        run.count('dflt:%s' % dflt)
-        for a, s in st.op['args'].items():
-            if a in ('ClassName', 'InstanceName', 'ObjectName', 'namespace'):
-                run.count('shape:%s=%s' % (a, arg_shape(s) if a != 'namespace' else (s.get('v') or 'None')))
-        if k in amap and op == 'InvokeMethod':
-            run.count('K:invokemethod_request')
-            compare_method(run, st, amap[k], case)
-        elif k in amap:
-            compare_step(run, st, amap[k], case)
-        oracle_step(run, st, dflt, case, scripted)
+    plan = [(run_histories, 600 if thorough else 60, 12), (run_nearmiss, 2000 if thorough else 200, None),
+            (run_scripted, 8000 if thorough else 900, None), (run_invoke, 1500 if thorough else 150, None)]
+    for fn, total, extra in plan:
+        chunk = 100 if fn is run_histories else 1000
+        done = 0
+        while done < total:
+            n = min(chunk, total - done)
+            if extra is None:
+                fn(run, n, out)
+            else:
+                fn(run, n, extra, out)
+            done += n
+            flush(out)
+    flush(out)
 
 
 def check_signature(run, sig):
